@@ -328,6 +328,9 @@ def check_flatten(ctx):
                             problems.add(f"the custom suite's key is {r.value[1][1]!r}; expected the id of its first test")
                         if len(sorts) != (1 if KINDS[kind][4] else 0):
                             problems.add(f"sort_tests is called {len(sorts)} times on {kind}")
+                        names_ = [e[0] for e in log]
+                        if sorts and leaves and any(n_.endswith(".id") for n_ in names_) and names_.index("node.sort_tests") < min(i for i, n_ in enumerate(names_) if n_.endswith(".id")):
+                            problems.add("the suite sorts itself before its first test is looked at: it is placed by its smallest id, not by the test it had first")
                 label = f"{kind}{', unpack_outer' if unpack == TRUE else ''}{'' if leaves or not suite else ', empty'}"
                 ctx.check("R-SORTKEY-NONNULL", f"_flatten_tests on {label}", f, bool(res) and not problems, "; ".join(sorted(problems)) or "no path", examined=len(res),
                           construct=f"{TESTSUITE}:_flatten_tests::{label}")
